@@ -228,6 +228,18 @@ def run_case(case: dict) -> CaseResult:
                 if model["inst"] == "created":
                     model["inst"] = None
                 ledger(f"op {i} close", 0)
+            elif o == "supply" and model["inst"] == "created":
+                # a different instance is offered while the manager holds one it created: refused, nothing changes
+                # (silently swapping would orphan the created one and make the next close hit the application's)
+                z = world.supplied_async() if op.get("kind") == "async" else world.supplied_sync()
+                supplied.append(z)
+                classes.add("supply_over_created")
+                try:
+                    manager.set_instance(z)
+                    viol.append(V("c20:ownership:supplied-over-created-accepted", f"op {i}: set_instance() replaced the instance the library had created"))
+                except RuntimeError:
+                    pass
+                ledger(f"op {i} supply over created", 1)
             elif o == "supply":
                 if model["inst"] is not None:
                     continue
@@ -386,6 +398,9 @@ def strategy(tier):
 
 
 def enumerated(tier):
+    for kind in ("async", "sync"):
+        yield {"manager": "empty", "mdns": {}, "dns": {}, "ops": [{"op": "get"}, {"op": "supply", "kind": kind}, {"op": "close"}]}
+        yield {"manager": "empty", "mdns": {"kitchen": MDNS_OUT[0]}, "dns": {}, "ops": [{"op": "get"}, {"op": "supply", "kind": kind}, {"op": "resolve", "hosts": ["kitchen.local"]}, {"op": "close"}, {"op": "supply", "kind": kind}, {"op": "close"}]}
     # a full connect: the resolved addresses reach the socket layer verbatim (scope ids, order)
     for addr in ("fe80::1%3", "fe80::aa%11", "fd00::7", "10.0.0.5", "kitchen.local", "kitchen", "dev.example.com"):
         for tcp in ("ok", "refuse"):
